@@ -438,11 +438,18 @@ impl IoLoop {
                     self.inner.write_to_stream(stream)?;
                 }
                 if event.readiness().is_readable() {
-                    self.inner.read_from_stream(
+                    let result = self.inner.read_from_stream(
                         stream,
                         &mut self.frame_buffer,
                         |inner, frame| state.process(inner, frame),
-                    )?;
+                    );
+                    // Once the server has acknowledged our close we are done with the
+                    // socket; the server may well close it right behind its CloseOk, so
+                    // hitting EOF (or a reset) in the same pass is not an error.
+                    if let ConnectionState::ClientClosed = state {
+                        return Ok(());
+                    }
+                    result?;
                 }
             }
             HEARTBEAT => self.inner.process_heartbeat_timers()?,
